@@ -793,7 +793,9 @@ Proof.
   { clear. induction ls as [|l ls IH]; intros sg HL HF Z; simpl; auto.
     change (ZG (fst (grun (gstep sg l) ls)) (snd (grun (gstep sg l) ls))).
     apply IH; simpl; [apply LkS_step | apply FI_step | apply ZG_kind; auto; apply step_kind]; auto. }
-  rewrite <- (grun_fst ls (init_state a b c d, (comp (init_state a b c d), None))).
+  change (run_labels (init_state a b c d) ls) with
+    (run_labels (fst (init_state a b c d, (comp (init_state a b c d), @None hookrec))) ls).
+  rewrite <- grun_fst.
   apply G; simpl; [apply LkS_init | apply FI_init |].
   intros o k Hv. discriminate.
 Qed.
@@ -838,3 +840,217 @@ Proof.
   intros (ra & -> & Ha & Hn) Hm. rewrite rev_mid_split, t_init_app_noinit by (apply no_init_rev; exact Hm).
   simpl. rewrite Ha. exact Hn.
 Qed.
+
+(** ---- readable history functions (chronological prefix) ---- *)
+Definition latest_init_no (h : list event) : option Z := t_init (rev h).
+Definition latest_statement (h : list event) : option Z := t_stmt (rev h).
+Definition latest_run_info (h : list event) : option (Z * rphase * Z) := t_info (rev h).
+Definition latest_initialized_info (h : list event) : option (Z * Z) := t_info0 (rev h).
+
+Section Theorems.
+Variables (stmt start : Z) (th md : bool) (ls : list label).
+Let s := run_labels (init_state stmt start th md) ls.
+
+Let HL : LkS s. Proof. apply LkS_reachable. Qed.
+Let HF : FI s. Proof. apply inv_reachable. Qed.
+Let HN : NI start s. Proof. apply NI_reachable. Qed.
+Let HH : HI start (trace s). Proof. apply HI_reachable. Qed.
+
+Lemma PH_at h1 e h2 : history s = h1 ++ e :: h2 -> PH start e (rev h1).
+Proof. apply all_suffix_history. apply HH. Qed.
+
+Theorem thm_first_init h1 e n h2 :
+  history s = h1 ++ e :: h2 -> is_init e n -> no_init h1 -> n = start.
+Proof.
+  intros Hh (r & -> & Hr & Hn) Hno. destruct (PH_at _ _ _ Hh) as (Pc & _).
+  specialize (Pc r n eq_refl Hr Hn).
+  rewrite <- (app_nil_r (rev h1)), t_init_app_noinit in Pc by (apply no_init_rev; exact Hno). exact Pc.
+Qed.
+
+Theorem thm_consecutive h1 a n mid b m h2 :
+  history s = h1 ++ a :: mid ++ b :: h2 -> is_init a n -> is_init b m -> no_init mid ->
+  m = n + 1 \/ exists r, In (EvHook r) mid /\ h_hook r = HReset /\ h_start r = Some m.
+Proof.
+  intros Hh Ha (rb & -> & Hrb & Hm) Hno.
+  destruct (PH_at _ _ _ (history_split2 _ _ _ _ _ _ Hh)) as (Pc & _).
+  specialize (Pc rb m eq_refl Hrb Hm). rewrite (t_init_after_init _ _ _ _ Ha Hno) in Pc.
+  destruct Pc as [Pc|Pc]; auto. right. rewrite rev_mid_split in Pc.
+  destruct (resets_app_init _ _ _ _ _ Ha Pc) as (r & Hin & H1 & H2). exists r. split; auto.
+  apply in_rev in Hin. exact Hin.
+Qed.
+
+Theorem thm_init_has_number h1 r h2 :
+  history s = h1 ++ EvHook r :: h2 -> h_hook r = HInitRun ->
+  exists n x h0, h_runno r = Some n /\ h_stmt r = Some x /\
+                 h1 = h0 ++ [EvPub (PRunNo n); EvPub (PRunInfo n RInitialized x None)].
+Proof.
+  intros Hh Hr. destruct (PH_at _ _ _ Hh) as (_ & _ & _ & Pi & _).
+  destruct (Pi r eq_refl Hr) as (n & x & rest & H1 & H2 & H3). exists n, x, (rev rest). repeat split; auto.
+  rewrite <- (rev_involutive h1), H3. simpl. rewrite <- app_assoc. reflexivity.
+Qed.
+
+Theorem thm_executed h1 r h2 :
+  history s = h1 ++ EvHook r :: h2 -> h_hook r = HStartRun ->
+  exists n x, h_runno r = Some n /\ h_stmt r = Some x /\
+    latest_statement h1 = Some x /\ latest_init_no h1 = Some n /\
+    latest_initialized_info h1 = Some (n, x) /\ latest_run_info h1 = Some (n, RRunning, x).
+Proof. intros Hh Hr. destruct (PH_at _ _ _ Hh) as (_ & Ps & _). exact (Ps r eq_refl Hr). Qed.
+
+Theorem thm_carried_end h1 r h2 :
+  history s = h1 ++ EvHook r :: h2 -> h_hook r = HEndRun ->
+  exists n, h_runno r = Some n /\ latest_init_no h1 = Some n.
+Proof. intros Hh Hr. destruct (PH_at _ _ _ Hh) as (_ & _ & (Pe & _) & _). exact (Pe r eq_refl Hr). Qed.
+
+Theorem thm_carried_info h1 k ph x res h2 :
+  history s = h1 ++ EvPub (PRunInfo k ph x res) :: h2 -> ph <> RInitialized -> latest_init_no h1 = Some k.
+Proof. intros Hh Hp. destruct (PH_at _ _ _ Hh) as (_ & _ & (_ & Pe) & _). exact (Pe k ph x res eq_refl Hp). Qed.
+
+Lemma next_exists h1 e h2 : history s = h1 ++ e :: h2 -> ~ top_ok (e :: rev h1) -> exists e' h3, h2 = e' :: h3.
+Proof.
+  intros Hh Hnt. destruct h2 as [|e' h3]; eauto. exfalso. apply Hnt.
+  pose proof (history_split _ _ _ _ Hh) as Ht. simpl in Ht. rewrite <- Ht. apply HH.
+Qed.
+
+Lemma block_at h1 e e' h3 : history s = h1 ++ e :: e' :: h3 -> P_block e' (e :: rev h1).
+Proof.
+  intros Hh. assert (Hh' : history s = (h1 ++ [e]) ++ e' :: h3) by (rewrite <- app_assoc; exact Hh).
+  destruct (PH_at _ _ _ Hh') as (_ & _ & _ & _ & Pb). rewrite rev_app_distr in Pb. exact Pb.
+Qed.
+
+Theorem thm_initialized_info_block h1 k x res h2 :
+  history s = h1 ++ EvPub (PRunInfo k RInitialized x res) :: h2 ->
+  exists r h3, h2 = EvHook r :: h3 /\ h_hook r = HInitRun /\ h_runno r = Some k /\ h_stmt r = Some x.
+Proof.
+  intros Hh. destruct (next_exists _ _ _ Hh) as (e' & h3 & ->); [simpl; auto|].
+  pose proof (block_at _ _ _ _ Hh) as Pb. simpl in Pb. destruct Pb as (r & -> & H1 & H2 & H3). exists r, h3. auto.
+Qed.
+
+Theorem thm_run_no_block h1 k h2 :
+  history s = h1 ++ EvPub (PRunNo k) :: h2 ->
+  exists x r h3, h2 = EvPub (PRunInfo k RInitialized x None) :: EvHook r :: h3 /\
+                 h_hook r = HInitRun /\ h_runno r = Some k /\ h_stmt r = Some x.
+Proof.
+  intros Hh. destruct (next_exists _ _ _ Hh) as (e' & h3 & ->); [simpl; auto|].
+  pose proof (block_at _ _ _ _ Hh) as Pb. simpl in Pb. destruct Pb as (x & ->).
+  assert (Hh' : history s = (h1 ++ [EvPub (PRunNo k)]) ++ EvPub (PRunInfo k RInitialized x None) :: h3)
+    by (rewrite <- app_assoc; exact Hh).
+  destruct (thm_initialized_info_block _ _ _ _ _ Hh') as (r & h4 & -> & H1 & H2 & H3).
+  exists x, r, h4. auto.
+Qed.
+End Theorems.
+
+(** ---- which steps append the return of a reset ---- *)
+Definition noret (e : event) : Prop := match e with EvRet _ (CReset _) _ => False | _ => True end.
+
+Lemma quiet_noret cs e : quiet_ev cs e -> noret e.
+Proof. destruct e as [| | | t c r]; simpl; auto. Qed.
+Lemma call_noret e : call_ev e -> noret e.
+Proof. destruct e; simpl; auto; contradiction. Qed.
+
+Lemma kind_events s s' : kind s s' ->
+  (exists t o, hview s = Some (CReset o, 4%nat) /\ comp s' = comp s /\ run_arg s' = run_arg s /\
+               st_fsm s' = st_fsm s /\ appended s s' = [EvRet t (CReset o) ROk])
+  \/ (exists t o calls, comp s' = comp s /\ run_arg s' = run_arg s /\ Forall call_ev calls /\
+                        appended s s' = calls ++ [EvRet t (CReset o) RMachineError])
+  \/ (forall e, In e (appended s s') -> noret e).
+Proof.
+  intros HK.
+  destruct HK as [Ec Er Ev Hp Hx | Ec Er Ef Ev Hx | c r tr1 Ec Er Ev Ev' Ef Hx Hr Ht
+                  | ra0 Era Ev Ec Er Ef Ht | o pre Ev Hfs Ef Er Hx Hm' | o Ev Ev' Ec Er Ef Ht
+                  | t o Ev Ev' Ec Er Ef Ht | t o pre Ev Ev' Ec Er Ef Hx Ht
+                  | ra0 Era Ef Ec Er Ev Ef' Ht | ra0 oc Era Ef Ec Er Ev Ef' Ht].
+  - right; right. intros e Hin. eapply quiet_noret. eapply ext_appended; eauto.
+  - right; right. intros e Hin. eapply quiet_noret. eapply ext_appended; eauto.
+  - right; right. destruct (ext_app _ _ _ Hx) as (n1 & E1 & F1).
+    intros e Hin. apply (in_appended s s' (EvHook r :: EvPub (PStatement (c_stmt s)) :: n1)) in Hin;
+      [|rewrite Ht, E1; reflexivity].
+    destruct Hin as [<-|[<-|Hin]]; simpl; auto. rewrite Forall_forall in F1. eapply quiet_noret; eauto.
+  - right; right. intros e Hin. apply (in_appended _ _ _ _ Ht) in Hin.
+    destruct Hin as [<-|[<-|[<-|[]]]]; exact I.
+  - right; right. destruct (ext_app _ _ _ Hx) as (n1 & E1 & F1). rewrite Forall_forall in F1.
+    destruct (o_stmt o) as [x|].
+    + destruct Hm' as (_ & _ & r & Hr & Ht).
+      intros e Hin. apply (in_appended s s' (EvHook r :: EvPub (PStatement x) :: EvHook (reset_rec s o) :: n1)) in Hin;
+        [|rewrite Ht, E1; reflexivity].
+      destruct Hin as [<-|[<-|[<-|Hin]]]; simpl; auto. apply call_noret; auto.
+    + destruct Hm' as (_ & _ & Ht).
+      intros e Hin. apply (in_appended s s' (EvHook (reset_rec s o) :: n1)) in Hin; [|rewrite Ht, E1; reflexivity].
+      destruct Hin as [<-|Hin]; simpl; auto. apply call_noret; auto.
+  - right; right. intros e Hin. apply (in_appended s s' []) in Hin; [destruct Hin | rewrite Ht; reflexivity].
+  - left. exists t, o. repeat split; auto. apply (appended_new s s' [_] Ht).
+  - right; left. destruct (ext_app _ _ _ Hx) as (n1 & E1 & F1). exists t, o, (rev n1). repeat split; auto.
+    + apply Forall_rev. exact F1.
+    + rewrite (appended_new s s' (EvRet t (CReset o) RMachineError :: n1)); [reflexivity | rewrite Ht, E1; reflexivity].
+  - right; right. intros e Hin. apply (in_appended s s' [_; _] _ Ht) in Hin. destruct Hin as [<-|[<-|[]]]; exact I.
+  - right; right. intros e Hin. apply (in_appended s s' [_; _] _ Ht) in Hin. destruct Hin as [<-|[<-|[]]]; exact I.
+Qed.
+
+Section Theorems2.
+Variables (stmt start : Z) (th md : bool) (ls : list label).
+Let s := run_labels (init_state stmt start th md) ls.
+Let HL : LkS s. Proof. apply LkS_reachable. Qed.
+Let HF : FI s. Proof. apply inv_reachable. Qed.
+Let HN : NI start s. Proof. apply NI_reachable. Qed.
+
+Theorem thm_reset_ok l t o :
+  In (EvRet t (CReset o) ROk) (appended s (step s l)) ->
+  st_fsm (step s l) = Initialized /\
+  run_arg (step s l) = Some (ra_of (merged (fst (snapshot stmt start th md ls)) o)) /\
+  exists r, snd (snapshot stmt start th md ls) = Some r /\ h_hook r = HReset /\
+            h_stmt r = o_stmt o /\ h_start r = o_start o.
+Proof.
+  intros Hin. pose proof (ZG_reachable stmt start th md ls) as Z. fold s in Z.
+  destruct (kind_events _ _ (step_kind s l HL HF)) as [(t0 & o0 & Hv & Ec & Er & Ef & Ha) | [(t0 & o0 & calls & _ & _ & Fc & Ha) | Hno]].
+  - rewrite Ha in Hin. destruct Hin as [Hin|[]]. inversion Hin; subst t0 o0.
+    destruct (Z o 4%nat Hv) as (Z1 & Z2); [lia|]. simpl in Z2.
+    pose proof (hview_fsm _ _ _ HL HF Hv) as Hf. simpl in Hf. split; [congruence | split; [congruence | exact Z1]].
+  - exfalso. rewrite Ha in Hin. apply in_app_or in Hin. destruct Hin as [Hin|[Hin|[]]]; [|discriminate].
+    rewrite Forall_forall in Fc. apply (Fc _ Hin).
+  - exfalso. apply (Hno _ Hin).
+Qed.
+
+Theorem thm_reset_refused l t o :
+  In (EvRet t (CReset o) RMachineError) (appended s (step s l)) ->
+  comp (step s l) = comp s /\ run_arg (step s l) = run_arg s /\
+  forall e, In e (appended s (step s l)) -> e = EvRet t (CReset o) RMachineError \/ call_ev e.
+Proof.
+  intros Hin.
+  destruct (kind_events _ _ (step_kind s l HL HF)) as [(t0 & o0 & Hv & Ec & Er & Ef & Ha) | [(t0 & o0 & calls & Ec & Er & Fc & Ha) | Hno]].
+  - exfalso. rewrite Ha in Hin. destruct Hin as [Hin|[]]. discriminate.
+  - rewrite Forall_forall in Fc. repeat split; auto. rewrite Ha in *. intros e He.
+    apply in_app_or in Hin. destruct Hin as [Hin|[Hin|[]]]; [exfalso; apply (Fc _ Hin)|].
+    inversion Hin; subst t0 o0. apply in_app_or in He. destruct He as [He|[He|[]]]; auto.
+  - exfalso. apply (Hno _ Hin).
+Qed.
+
+Definition zmid (p : pc) : bool := match p with Z_G1 | Z_G1b | Z_WaitRunTask => true | _ => false end.
+
+Theorem thm_no_run_during_reset t c p :
+  find_task (tasks s) t = Some (c, p) -> zmid p = true -> forall x, runt s = Some x -> early x = false.
+Proof.
+  intros Hf Hz x Hx. destruct HF as [HP HS]. pose proof (HP _ _ _ Hf) as Hok.
+  destruct (early x) eqn:He; auto. pose proof (sc_early _ _ _ _ _ _ HS x Hx He) as Hr. rewrite Hr in Hok.
+  destruct p; simpl in Hz; try discriminate; simpl in Hok; discriminate.
+Qed.
+
+Lemma reset_mid_task : reset_mid s = true -> exists t c p, find_task (tasks s) t = Some (c, p) /\ zmid p = true.
+Proof.
+  unfold reset_mid, hview, hpc. destruct (holder s) as [t|]; [|discriminate].
+  destruct (find_task (tasks s) t) as [[c p]|] eqn:Ef; [|discriminate].
+  intros H. exists t, c, p. split; auto. destruct p; simpl in *; auto; discriminate.
+Qed.
+
+Theorem thm_composer ra :
+  run_arg s = Some ra -> (forall t c p, find_task (tasks s) t = Some (c, p) -> zmid p = false) -> compA s ra.
+Proof.
+  intros Hra Hno. apply (ni_A _ _ HN); auto. destruct (reset_mid s) eqn:Em; auto.
+  destruct (reset_mid_task Em) as (t & c & p & Hf & Hz). rewrite (Hno _ _ _ Hf) in Hz. discriminate.
+Qed.
+
+Theorem thm_composer_at_run_start ra x :
+  runt s = Some x -> early x = true -> run_arg s = Some ra -> compA s ra.
+Proof.
+  intros Hx He Hra. apply (ni_A _ _ HN); auto. apply running_not_mid; auto.
+  destruct HF as [_ HS]. eapply sc_early; eauto.
+Qed.
+End Theorems2.
